@@ -2,7 +2,9 @@ package mcap
 
 import (
 	"encoding/binary"
+	"errors"
 	"io"
+	"strings"
 )
 
 func readUint64(buf []byte, r io.Reader) (uint64, error) {
@@ -17,11 +19,17 @@ func readPrefixedString(buf []byte, r io.Reader) (string, error) {
 		return "", err
 	}
 	strlen := binary.LittleEndian.Uint32(buf[:4])
-	s := make([]byte, strlen)
-	if _, err := io.ReadFull(r, s); err != nil {
+	// The length comes from the input: do not allocate it up front. Copying
+	// grows the buffer only as far as the source actually delivers data.
+	var s strings.Builder
+	n, err := io.CopyN(&s, r, int64(strlen))
+	if err != nil {
+		if errors.Is(err, io.EOF) && n > 0 {
+			return "", io.ErrUnexpectedEOF
+		}
 		return "", err
 	}
-	return string(s), nil
+	return s.String(), nil
 }
 
 func putByte(buf []byte, x byte) (int, error) {
